@@ -143,7 +143,7 @@ def run(eng, rep) -> None:
                           "declaration list self.fcp.%s is written from callback '%s' (%s): declarations become visible out of source order" % (lst, mname, kind))
             elif t == "self.fcp" and mname != "__init__":
                 rep.violation("R08.2", m.file, m.qual, norm(st, 60), "the accumulated tree is replaced during transformation")
-    rep.floor("R08.2", "writers of the accumulated declaration lists", n_w, 5)
+    rep.floor("R08.2", "writers of the accumulated declaration lists", n_w, 2)
     # lookups go to self.fcp (not to a global / other tree)
     for n in ast.walk(f.node):
         if isinstance(n, ast.Call) and isinstance(n.func, ast.Attribute) and n.func.attr in ("get_struct", "get_enum", "get_type"):
@@ -249,7 +249,7 @@ def run(eng, rep) -> None:
                             a1 = n.args[1]
                             rep.check(any(isinstance(x, ast.Subscript) and norm(x.value) == c.children_src and isinstance(x.slice, ast.Constant) and x.slice.value == 1 for x in ast.walk(a1)) or any(isinstance(x, ast.Name) and c.binds.get(x.id) == ("idx", 1) for x in ast.walk(a1)),
                                       "R08.4", fdef.file, fdef.qual, "size <- child 1", "array size is the declared number", "array size does not come from the declared size child")
-    rep.floor("R08.3", "uses of Result-valued children", n_rc, 6)
+    rep.floor("R08.3", "uses of Result-valued children", n_rc, 2)
     # chained message names the struct
     sc = cbs.get("struct")
     if sc is not None:
